@@ -100,7 +100,8 @@ class Prefix(Enum):
             exptemp = e(targ)
 
             # Scale the other number
-            new_num = other.number * Decimal(10) ** (targ - exptemp.symbol.value)
+            shift = targ - exptemp.symbol.value
+            new_num = _exactly(lambda: other.number.scaleb(shift), other.number)
 
             # And create a corresponding `Prefixed`
             return Prefixed.new(new_num, exptemp.symbol)
@@ -227,10 +228,10 @@ class Prefixed(BaseModel):
         return float(self._value())
 
     def __neg__(self) -> "Prefixed":
-        return Prefixed.new(-self.number, self.prefix)
+        return Prefixed.new(self.number.copy_negate(), self.prefix)
 
     def __abs__(self) -> "Prefixed":
-        return Prefixed.new(abs(self.number), self.prefix)
+        return Prefixed.new(self.number.copy_abs(), self.prefix)
 
     def __mul__(self, other) -> "Prefixed":
         if isinstance(other, Prefixed):
@@ -502,9 +503,7 @@ class Exponent:
             )
 
         elif isinstance(other, (str, int, float, Decimal)):
-            return Prefixed.new(
-                Decimal(str(other)) * Decimal(10) ** self.residual, self.symbol
-            )
+            return self.__rmul__(other)
 
         return NotImplemented
 
@@ -513,7 +512,9 @@ class Exponent:
         if isinstance(other, (str, int, float, Decimal)):
             # 16 * Exponent(Symbol.UNIT,0.25) == 2 * Prefix.UNIT
 
-            out_number = Decimal(str(other)) * Decimal(10) ** self.residual
+            out_number = Decimal(str(other))
+            if self.residual:  # A whole power of a thousand leaves the number as it is, digit for digit
+                out_number = out_number * Decimal(10) ** self.residual
 
             return Prefixed.new(out_number, self.symbol)
 
